@@ -2,7 +2,7 @@
    Model: Model/Afssh.v (one nuclear dimension at a time; eigh(W) is an oracle whose answer
    enters as data — Hermiticity needs NO property of it); proofs: Proof/AfsshP.v. *)
 From Coq Require Import Reals List Lra.
-From MV Require Import Ops RInst Vec Cplx Mat CRing MatP Propagate PropagateP Rk4P Afssh AfsshP CollapseP.
+From MV Require Import Ops RInst Vec Cplx Mat CRing MatP Propagate PropagateP Rk4P Afssh AfsshP CollapseP Traj TrajP.
 Import ListNotations.
 Open Scope R_scope.
 
@@ -73,6 +73,21 @@ Proof.
   - split; [|reflexivity]. intros Hg Hu. apply collapse_scan_none; [|exact Hu]. intros j g Hj Hne. apply (Hg j g Hj). cbn in Hne. exact Hne.
 Qed.
 Print Assumptions C11_collapse_decision.
+
+(* the assembled A-FSSH pass (Model/Traj.step_af: delR with the previous pass's propagator, delP with this pass's
+   propagator and the density matrix before propagation, hop along Re(delP_ss - delP_tt) with re-centring, collapse;
+   tied to real A-FSSH runs by Run/RTraj.chkA): both moment families and the density matrix are Hermitian after the
+   pass whatever the hop and collapse decisions *)
+Theorem C11_full_step_hermitian :
+  forall n m dt poisson zeta (eprev e0 e1 : elec (T:=R)) fm1 epsR coR lam Cm etas (s s' : astate (T:=R)) att coll,
+  step_af ROps n m dt poisson zeta eprev e0 e1 fm1 epsR coR lam Cm etas s = (s', att, coll) ->
+  length lam = n -> unitary n (mget ROps Cm) -> (pact (ab s) < n)%nat ->
+  (forall t, att = Some (t, true) -> (t < n)%nat) ->
+  Forall (fun fmx => forall i j, (i < n)%nat -> (j < n)%nat -> nth j (nth i fmx []) (o0 ROps) = nth i (nth j fmx []) (o0 ROps)) fm1 ->
+  Forall (mherm n) (adelR s) -> Forall (mherm n) (adelP s) -> mherm n (prho (ab s)) ->
+  Forall (mherm n) (adelR s') /\ Forall (mherm n) (adelP s') /\ mherm n (prho (ab s')).
+Proof. intros. eapply step_af_hermitian; eassumption. Qed.
+Print Assumptions C11_full_step_hermitian.
 
 (* PARTIAL: agreement of the two moment integrators as dt -> 0 (both solve the same linear
    ODE; exp exactly for a frozen generator, rk4 to fourth order) is not mechanised; measured. *)
